@@ -96,6 +96,11 @@ func (st *Store) AddToAddress(addr keys.Address, coin balance.Coin) error {
 		return errors.Wrapf(err, "failed to get address balance %s", addr.String())
 	}
 
+	// fees are kept in one currency: Coin.Plus exits the process on a mismatch
+	if coin.Currency.Name != baseCoin.Currency.Name || coin.Amount == nil {
+		return errors.Errorf("fee store holds %s, cannot add %s", baseCoin.Currency.Name, coin.Currency.Name)
+	}
+
 	newCoin := baseCoin.Plus(coin)
 
 	return st.Set(addr, newCoin)
